@@ -33,7 +33,7 @@ LEVEL_NOTE = ('Partial: np.linalg.lstsq returning a solution of the normal equat
               'TiltInterface.multiply) is covered by correspondence + oracle (tilt lists are values in the model). '
               'Trusted: Lean kernel, generator coverage, NumPy einsum/lstsq as modelled.')
 TECHNIQUE = 'Lean 4 proof (induction over tilt lists / histories, ring, Real.sqrt) over translator-regenerated tilt/fit wiring + hand model with differential correspondence at Float'
-GEN = ['Extent', 'Window', 'PropagateMeta', 'TiltFit']
+GEN = ['Extent', 'Window', 'PropagateMeta', 'TiltFit', 'FieldMerge', 'FieldDispatch', 'FieldAccum']
 OPS = ['C02', 'C04']
 RULE = ('cases: (shift) lists of 1..4 angular / first-order dispersive / higher-order dispersive elements, all orderings, per-axis du, os 1..4; '
         '(fit) planes 2..7 x 2..7 with 1..3 segments, per-axis pixelscale, OPD = ramp + random, second fit after an OPD update; '
